@@ -15,6 +15,8 @@ type IfUnless struct {
 	ifNarrowTs    map[string][]base.T
 	conjunctCount int
 	hasAnd        bool
+	// what the branches before the current condition have already taken
+	excludedBefore map[string][]base.T
 }
 
 func NewIfUnless(conditionType string) DynamicEvaluator {
@@ -133,12 +135,30 @@ func (i *IfUnless) setConditionalCtx(
 			}
 		}
 
+		// an elsif branch is reached only by what the earlier branches left
+		var reaching []base.T
+
+		for _, v := range remaining {
+			taken := false
+
+			for _, ex := range i.excludedBefore[object] {
+				if v.GetObjectClass() == ex.GetObjectClass() {
+					taken = true
+					break
+				}
+			}
+
+			if !taken {
+				reaching = append(reaching, v)
+			}
+		}
+
 		base.SetValueT(
 			ctx.GetFrame(),
 			ctx.GetClass(),
 			ctx.GetMethod(),
 			object,
-			base.MakeUnifiedT(remaining),
+			base.MakeUnifiedT(reaching),
 			ctx.IsDefineStatic,
 		)
 
@@ -185,6 +205,7 @@ func (i *IfUnless) getBackupContext(
 
 	i.conjunctCount = 0
 	i.hasAnd = false
+	i.excludedBefore = narrowTsBefore
 
 	zaoriks, err := i.scanCondition(e, p, ctx)
 
